@@ -1,8 +1,13 @@
 #!/usr/bin/env python3
-"""setup: configure the scratch CMake tree and pre-build the hooked binary (offline)."""
-import sys, os
+"""setup (offline): build the Lean library, the drivers, configure the scratch CMake tree and
+pre-build the hooked binary.  Failures here are reported but do not stop: every check rebuilds
+what it needs itself."""
+import sys, os, re
 sys.path.insert(0, os.path.dirname(os.path.abspath(__file__)))
 import vlib
+exes = re.findall(r'name = "(drv_c\d+)"', open(os.path.join(vlib.LEAN, "lakefile.toml")).read())
+ok, out = vlib.lake_build(["CMacVerif", "Driver"] + exes)
+print("lake build:", "ok" if ok else "FAILED\n" + out[-3000:])
 vlib.ensure_configured()
 try:
     vlib.full_binary()
